@@ -10,6 +10,7 @@ EXTRA_THEOREM_FILES = ["Props/C15_src.v"]     # source tie: translated source = 
 EXTRA_THEOREM_FILES.append("Props/C15_src_views.v")     # (SRCE) source tie of the IPAddress accessors bits / bin / words / packed / reverse_dns / __bytes__ / __hex__
 EXTRA_THEOREM_FILES.append("Props/C15_src_ip.v")   # SRCC: strategy/ipv4.py, ipv6.py, strategy int_to_bits
 EXTRA_THEOREM_FILES.append("Props/C15_src_b85.v")     # SRCB: rfc1924.py
+EXTRA_THEOREM_FILES.append("Props/C15_code.v")   # CODB: code-level theorems (the C15 theorems stated about the regenerated definitions)
 RULE = ("encoders: boundary values (0, 1, 2^k, 2^k+-1, max-2^k+-1, max) and random dense/sparse values of each of the 4 "
         "families x every built-in dialect (word size / separator), plus out-of-range values (-1, 2^w, ...); object "
         "accessors of IPAddress (packed, bytes(), bits(), bits(sep), bin, words, reverse_dns) and EUI (packed, bits(), "
